@@ -4,7 +4,7 @@
   3. property oracle on the implementation's observations (search for a failing input),
   4. known-finding witnesses replayed,
   5. evidence + verdict."""
-import json, os, sys, time, traceback, collections, re
+import os, json, sys, time, traceback, collections, re
 from . import common as C
 from . import corr, proofs
 
@@ -70,7 +70,7 @@ def nontrivial_key(case_line, obs):
     i = case_line.index("(tmpl ")
     return hash(case_line[i:])
 
-QUIRKS = ["lit_eof", "stale_ctx", "recover_scope", "memo_nocharge", "memo_label", "lr_memo_state"]
+QUIRKS = ["lit_eof", "stale_ctx", "recover_scope", "memo_nocharge", "memo_label", "lr_memo_state", "memo_expected"]
 
 def quirk_bits(off=None):
     off = off or ()
@@ -148,7 +148,8 @@ def default_scope(case_line):
     return True
 
 def run_corr(ctx, rep, profiles, fields, oracle=None, classify=None, timeout_ms=4000,
-             ref_fields=None, scope=default_scope, known_quirks=None, derive=None, spec_flag="-ref", spec_name="Ref", ref_skip=None):
+             ref_fields=None, scope=default_scope, known_quirks=None, derive=None, spec_flag="-ref", spec_name="Ref", ref_skip=None,
+             emitted=None, emitted_fields=None):
     """profiles: list of (profile name, n_quick, n_thorough).
     fields: observables on which the model (faithful quirks) and the implementation must agree.
     ref_fields: observables on which the implementation must agree with the specification Ref
@@ -157,7 +158,10 @@ def run_corr(ctx, rep, profiles, fields, oracle=None, classify=None, timeout_ms=
       known_quirks lists it), otherwise it is a violation.
     oracle(case_line, impl_obs, model_obs) -> None | str : property-specific check on the implementation.
     classify(case_line, impl_obs, model_obs, problem) -> finding id | None.
-    derive(lines) -> extra case lines (twins) appended to the run."""
+    derive(lines) -> extra case lines (twins) appended to the run.
+    emitted: (n_quick, n_thorough) grammars per profile that also go, as text, through the real front-end and builder
+      (corr.run_emitted): the emitted parser must behave like the host whose grammar tables the harness lowered itself
+      (and so like the model) on emitted_fields (default: fields)."""
     hosts = ctx.hosts()
     tables = ctx.tables()
     driver = ctx.model()
@@ -269,6 +273,35 @@ def run_corr(ctx, rep, profiles, fields, oracle=None, classify=None, timeout_ms=
                 rep.violation("implementation and specification (Ref) disagree on %s%s" % (f, (" [quirks %s]" % ",".join(q)) if q else ""),
                               {"case": l, "field": f, "ref": r, "impl": i, "model": model.get(cid), "attributed_quirk": q,
                                "grammars": pretty_of(pretty, cid)}, found=True)
+        # (1b) the emitted path: the same cases on parsers the real command emitted for their grammar text
+        if emitted:
+            em, problems, nbuilt = corr.run_emitted(ctx.sc, ctx.pigeon(), pretty, lines, ctx.q(*emitted), timeout_ms)
+            dist["emitted:grammars_built"] += nbuilt - len(problems)
+            dist["emitted:cases"] += len(em)
+            for gid, (kind, msg) in problems.items():
+                gl = [l for l in lines if corr.group_id(corr.case_id(l)) == gid]
+                wf = all("(tmpl" in l for l in gl)
+                if kind == "rejected":
+                    # left-recursive grammars on templates without -support-left-recursion are generated on purpose (budget cases)
+                    if "left recursion" in msg or "left recursive" in msg:
+                        dist["emitted:rejected_left_recursion (skipped)"] += 1
+                        continue
+                    rep.violation("pigeon rejects the text of a generated grammar: %s" % msg[:200],
+                                  {"grammar": open(os.path.join(corr.emit_dir(pretty), gid + ".peg")).read(), "stderr": msg}, found=True)
+                else:
+                    rep.violation("the parser pigeon emits for a generated grammar does not compile: %s" % msg[:200],
+                                  {"grammar": open(os.path.join(corr.emit_dir(pretty), gid + ".peg")).read(), "output": msg}, found=True)
+            ef = emitted_fields or fields
+            for cid, e in em.items():
+                i = impl.get(cid, {})
+                if e.get("out") in corr.NONTERM or i.get("out") in corr.NONTERM:
+                    continue
+                if not same_on(ef, e, i):
+                    f = first_diff(ef, e, i)
+                    found = cid in ref and not same_on([x for x in (ref_fields or []) if x in ef] or ["out", "val"], e, ref.get(cid, {}))
+                    rep.violation("the parser emitted by the real front-end and builder for the grammar text differs on %s from the parser whose tables the harness lowered (= the model)" % f,
+                                  {"case": by_id.get(cid), "field": f, "emitted": e, "tables": i, "ref": ref.get(cid),
+                                   "grammar_text": open(os.path.join(corr.emit_dir(pretty), corr.group_id(cid) + ".peg")).read()}, found=found)
         # (3) property oracle on every case
         if oracle:
             for cid, l in by_id.items():
